@@ -3,6 +3,8 @@
 -/
 import XzVerif.Model.LzmaCode
 
+set_option linter.unusedSimpArgs false
+
 namespace XzVerif.LzmaCode
 
 /-- The `sequence` value that belongs to an action (ISEQ_x has the same number as LZMA_x). -/
@@ -226,5 +228,126 @@ theorem classify_hasCode (i : Internal) (r : Resp) :
   unfold classify
   repeat' split
   all_goals simp
+
+theorem seqSwitch_ok_seq {i : Internal} {action availIn : Nat} {sq : Seq} (ha : action ≤ 4)
+    (h : seqSwitch i action availIn = .ok sq) : i.sequence ≠ .error ∧ i.sequence ≠ .end_ := by
+  obtain ⟨-, h2⟩ := seqSwitch_ok ha h
+  rcases h2 with h2 | ⟨h2, h3, -⟩
+  · simp [h2]
+  · rw [h2]; cases sq <;> simp [Seq.lockedAction] at h3 ⊢
+
+theorem classify_buf_error_iff (i : Internal) (r : Resp) (h10 : r.ret ≠ LZMA_BUF_ERROR) :
+    (classify i r).2 = LZMA_BUF_ERROR ↔ (r.idle = true ∧ i.allowBufError = true) := by
+  unfold classify Resp.idle
+  by_cases h0 : r.ret = LZMA_OK
+  · by_cases hz : r.produced = 0 ∧ r.consumed = 0
+    · cases hb : i.allowBufError <;> simp [h0, hz, hb]
+    · simp only [h0, hz, if_true, if_false]
+      simp
+      intro h1 h2
+      exact absurd ⟨h2, h1⟩ hz
+  · simp only [h0, if_false]
+    repeat' split
+    all_goals simp [h0]
+    all_goals first | omega | exact h10
+
+/-- One call: LZMA_BUF_ERROR comes back exactly when the inner coder was reached, idled, and `allow_buf_error`
+    was already set (the inner coder itself never returning LZMA_BUF_ERROR, as the C code asserts). -/
+theorem lzmaCode_buf_error_iff (code : InnerArgs → Resp) (strm : Stream) (action : Nat)
+    (hlaw : (code (argsOf strm action)).ret ≠ LZMA_BUF_ERROR) :
+    (lzmaCode code strm action).ret = LZMA_BUF_ERROR ↔
+      ∃ i a r, strm.internal = some i ∧ (lzmaCode code strm action).called = some (a, r)
+        ∧ r.idle = true ∧ i.allowBufError = true := by
+  cases hc : (lzmaCode code strm action).called with
+  | none =>
+    have hret : (lzmaCode code strm action).ret ≠ LZMA_BUF_ERROR := by
+      rcases lzmaCode_not_called_ret hc with h | h | h <;> rw [h] <;> decide
+    simp [hret]
+  | some ar =>
+    obtain ⟨a, r⟩ := ar
+    obtain ⟨i, hi, -, -, -, -, ha, hr, heq⟩ := lzmaCode_called hc
+    have hr10 : r.ret ≠ LZMA_BUF_ERROR := by rw [hr, ha]; exact hlaw
+    have hcl := classify_buf_error_iff
+      { i with sequence := seqOfAction action, availIn := (advance strm r).availIn } r hr10
+    rw [heq]
+    constructor
+    · intro h
+      exact ⟨i, a, r, hi, rfl, hcl.mp h⟩
+    · rintro ⟨i', a', r', hi', hc', hidle, habe⟩
+      rw [hi] at hi'
+      cases hi'
+      cases hc'
+      exact hcl.mpr ⟨hidle, habe⟩
+
+/-- Spec monitor for a whole trace: `last` remembers whether the most recent call that reached the inner coder
+    was an idle LZMA_OK. It accepts iff LZMA_BUF_ERROR is returned exactly on an idle call whose predecessor
+    (among the calls that reached the inner coder) was idle as well. -/
+def bufErrorMonitor : Bool → List Entry → Prop
+  | _, [] => True
+  | last, e :: es =>
+    (e.result.ret = LZMA_BUF_ERROR ↔ ∃ a r, e.result.called = some (a, r) ∧ r.idle = true ∧ last = true)
+    ∧ bufErrorMonitor (match e.result.called with | some (_, r) => r.idle | none => last) es
+
+theorem bufErrorMonitor_trace (calls : List Call)
+    (hlaw : ∀ c ∈ calls, ∀ a, (c.code a).ret ≠ LZMA_BUF_ERROR) :
+    ∀ (s : Stream) (i : Internal) (last : Bool), s.internal = some i →
+      (i.sequence = .error ∨ i.allowBufError = last) → bufErrorMonitor last (trace s calls) := by
+  induction calls with
+  | nil => intros; trivial
+  | cons c cs ih =>
+    intro s i last hi hinv
+    have hlaw' : ∀ c' ∈ cs, ∀ a, (c'.code a).ret ≠ LZMA_BUF_ERROR := fun c' h => hlaw c' (List.mem_cons_of_mem _ h)
+    have hi0 : (c.apply s).internal = some i := by rw [apply_internal, hi]
+    have hiff := lzmaCode_buf_error_iff c.code (c.apply s) c.action (hlaw c (List.mem_cons_self ..) _)
+    simp only [trace, bufErrorMonitor]
+    cases hc : (step s c).called with
+    | none =>
+      have hc' : (lzmaCode c.code (c.apply s) c.action).called = none := hc
+      have hst : (step s c).strm = c.apply s := lzmaCode_not_called hc'
+      refine ⟨?_, ?_⟩
+      · unfold step; rw [hiff]; simp [hc']
+      · simp only []
+        exact ih hlaw' _ i last (by rw [hst]; exact hi0) hinv
+    | some ar =>
+      obtain ⟨a, r⟩ := ar
+      have hc' : (lzmaCode c.code (c.apply s) c.action).called = some (a, r) := hc
+      obtain ⟨i2, hi2, -, -, ha, hsw, -, -, heq⟩ := lzmaCode_called hc'
+      have hii : i2 = i := by rw [hi0] at hi2; exact (Option.some.inj hi2).symm
+      subst hii
+      have hne := (seqSwitch_ok_seq ha hsw).1
+      have habe : i2.allowBufError = last := by rcases hinv with h | h; exact absurd h hne; exact h
+      refine ⟨?_, ?_⟩
+      · unfold step; rw [hiff]; simp [hc', hi0, habe]
+      · simp only []
+        refine ih hlaw' _ _ r.idle (by unfold step; rw [heq]) (classify_abe _ r)
+
+/-- The result when the call goes through to the inner coder. -/
+theorem lzmaCode_ok {code : InnerArgs → Resp} {strm : Stream} {action : Nat} {i : Internal} {sq : Seq}
+    (hg : gate strm action = none) (hi : strm.internal = some i)
+    (hsw : seqSwitch i action strm.availIn = .ok sq) :
+    lzmaCode code strm action =
+      ⟨{ advance strm (code (argsOf strm action)) with
+          internal := some (classify { i with sequence := sq,
+                                              availIn := (advance strm (code (argsOf strm action))).availIn }
+                                     (code (argsOf strm action))).1 },
+       (classify { i with sequence := sq, availIn := (advance strm (code (argsOf strm action))).availIn }
+                 (code (argsOf strm action))).2,
+       some (argsOf strm action, code (argsOf strm action))⟩ := by
+  obtain ⟨hs, hb⟩ := gate_none hg
+  simp [lzmaCode, hs, hb, hi, hsw, argsOf]
+
+/-- Bytes consumed / produced over a whole trace (only calls that reached the inner coder count). -/
+def consumedSum (t : List Entry) : Nat :=
+  (t.map fun e => match e.result.called with | some (_, r) => r.consumed | none => 0).sum
+def producedSum (t : List Entry) : Nat :=
+  (t.map fun e => match e.result.called with | some (_, r) => r.produced | none => 0).sum
+
+/-- Two handles that differ only in the saved `avail_in`, and not even there while a flush/finish is locked. -/
+def SameButSaved (s1 s2 : Stream) : Prop :=
+  s1.nextIn = s2.nextIn ∧ s1.availIn = s2.availIn ∧ s1.totalIn = s2.totalIn ∧ s1.nextOut = s2.nextOut
+  ∧ s1.availOut = s2.availOut ∧ s1.totalOut = s2.totalOut ∧ s1.reserved = s2.reserved
+  ∧ ∃ i1 i2, s1.internal = some i1 ∧ s2.internal = some i2 ∧ i1.hasCode = i2.hasCode ∧ i1.sequence = i2.sequence
+      ∧ i1.supported = i2.supported ∧ i1.allowBufError = i2.allowBufError
+      ∧ (i1.sequence.lockedAction.isSome → i1.availIn = i2.availIn)
 
 end XzVerif.LzmaCode
